@@ -95,6 +95,13 @@ def local_swap_ok(colors0, adj):
     # neighbours that colour refinement (what a Morgan ranking can see) leaves tied; true orbit mates are a subset of these
     orb=refine(colors0,adj)
     bad=[]
+    # atoms the refinement cannot tell apart although no automorphism maps one to the other (1,4-dicyclopropylcyclohexane:
+    # ring CH / cyclopropyl CH): every later tie-break among them is a choice by numbering, wherever it happens
+    true=orbits(colors0,adj)
+    rep={}
+    for n in adj:
+        if rep.setdefault(orb[n],true[n])!=true[n]:
+            bad.append(('refinement-tie',n,orb[n])); break
     for v in adj:
         nb=list(adj[v])
         for u,w in itertools.combinations(nb,2):
@@ -233,3 +240,57 @@ def odd_label_orbit(m, orb):
         key = (kind, orb[centre]) if kind == 't' else (kind, frozenset((orb[centre[0]], orb[centre[1]])))
         c[key] += 1
     return any(v >= 3 and v % 2 for v in c.values())
+
+
+def radialene_stereo(m):
+    """a ring atom that ends a labelled double bond and whose two ring neighbours both end other labelled double bonds
+    (three mutually cross-conjugated stereo double bonds around ring bonds, e.g. C/C=C1/CCC/C(=C\\C)/C1=C/C): routes to the
+    known writer defect on shared single-bond marks (one-pass mark assignment in MoleculeSmiles.__ct_map)"""
+    ends = {}
+    for i, j, b in m.bonds():
+        if b.order == 2 and b.stereo is not None:
+            ends.setdefault(i, set()).add(j)
+            ends.setdefault(j, set()).add(i)
+    for a, partners in ends.items():
+        nb = [x for x, b in m._bonds[a].items() if b.order == 1 and x in ends and b.in_ring]
+        if len(nb) >= 2:
+            return True
+    return False
+
+
+def ring_diene_stereo(m):
+    """two labelled endocyclic double bonds joined by a ring single bond (conjugated diene inside a macrocycle, e.g.
+    C1CC/C=C/C=C/CCCCC1): routes to the known writer defect for spellings that close the ring on one of the double bonds"""
+    ends = {}
+    for i, j, b in m.bonds():
+        if b.order == 2 and b.stereo is not None and b.in_ring:
+            ends[i] = j
+            ends[j] = i
+    for i, j, b in m.bonds():
+        if b.order == 1 and b.in_ring and i in ends and j in ends and ends[i] != j:
+            return True
+    return False
+
+
+def aromatic_p_ambiguity(m):
+    """an aromatic ring system holds a neutral three-coordinate P/As (lone-pair donor or P(V)H for the aromatic-text reader) and
+    another neutral two-coordinate aromatic N/P/As written without hydrogen count: the reader has to guess which of them is
+    the pyrrole-type atom.  Routes to the known finding on that guess depending on atom order (c1cnp(C)c1 vs c1ccnp1C)"""
+    arom = {n: [k for k, b in nb.items() if b.order == 4] for n, nb in m._bonds.items()}
+    seen = set()
+    for s in arom:
+        if s in seen or not arom[s]:
+            continue
+        comp, stack = {s}, [s]
+        while stack:
+            for k in arom[stack.pop()]:
+                if k not in comp:
+                    comp.add(k)
+                    stack.append(k)
+        seen |= comp
+        three = [n for n in comp if m.atom(n).atomic_number in (15, 33) and not m.atom(n).charge and len(m._bonds[n]) == 3]
+        two = [n for n in comp if m.atom(n).atomic_number in (7, 15, 33) and not m.atom(n).charge and len(m._bonds[n]) == 2
+               and not m.atom(n).implicit_hydrogens]
+        if three and two:
+            return True
+    return False
